@@ -194,8 +194,13 @@ PROPS['C13'] = dict(
          'unionfind_set call; after every operation the Lean write model (Snap.applyWrites: each write must pass validWrite, i.e. be an '
          'alloc / merge-into-a-leader / shrink-of-a-leader with its guard) advances a model table from the empty table, and every id must '
          'resolve in the model table exactly as in the dumped table of the implementation (which also went through path compression). '
+         'corr.group.contract (protocol grpw, same runs): the hook logs, for every move_to, the map written into the union-find and the '
+         'generators of the absorbed class and of the surviving class before and after, and for every shrink_slots the retained slots '
+         'and the generators before and after; Grpw.mergeOK demands that every old generator of the survivor and every transported '
+         'generator N;g;N^-1 of the absorbed class is a member of the new group and that every new generator is a member of the group '
+         'those generate; Grpw.shrinkOK that the new group is the group of the restricted cap-preserving generators. '
          'non-trivial = some operation logged a shrink or addsym event; distinct = by hash of the case line',
-    trusted_base=EG_TRUST + ['event hooks (alloc/merge/shrink/addsym call sites, commit 01d0fa8) are assumed to sit at every place that changes the measure; a missing site shows up as a stepOK failure', 'the write-log hook (commit e7aaaef) sits in unionfind_set, the only writer of the table besides the path-compression write-back (modelled separately, compress_preserves_find); a write that bypassed it shows up as a resolution mismatch'],
+    trusted_base=EG_TRUST + ['event hooks (alloc/merge/shrink/addsym call sites, commit 01d0fa8) are assumed to sit at every place that changes the measure; a missing site shows up as a stepOK failure', 'the write-log hook (commit e7aaaef) sits in unionfind_set, the only writer of the table besides the path-compression write-back (modelled separately, compress_preserves_find); a write that bypassed it shows up as a resolution mismatch', 'the group-log hook (commit a524cf1) sits in move_to and shrink_slots; the other places that change a group (union_leaders on a self-union, determine_self_symmetries: Group::add of a proven symmetry) are not contract-checked, their effect is judged by the eq / symmetry-count observables of the histories'],
     assumptions=COMMON_ASSUME + ['every 9 operations and at the end: Extractor::extract (AstSize) from every handle ever returned; the result must be represented and eq to the handle',
                                  'a rewrite iteration (2-3 pool rules chosen by position) every 11 operations, judged by the same event model'],
 )
